@@ -86,6 +86,12 @@ def run(ctx):
             if fdef is None:
                 continue
             made = set()
+            alias = {}        # local name -> attribute it was read from (isotopes = self._isotopes)
+            for st in ast.walk(fdef.node):
+                if isinstance(st, ast.Assign) and isinstance(st.value, ast.Attribute):
+                    for t in st.targets:
+                        if isinstance(t, ast.Name):
+                            alias[t.id] = st.value.attr
             for st in ast.walk(fdef.node):
                 if isinstance(st, ast.Assign):
                     is_made = st.value is node or (isinstance(st.value, ast.Name) and st.value.id in made)
@@ -94,6 +100,8 @@ def run(ctx):
                             made.add(t.id)
                         if is_made and isinstance(t, ast.Subscript) and isinstance(t.value, ast.Attribute):
                             caches.setdefault(t.value.attr, set()).add(where)
+                        if is_made and isinstance(t, ast.Subscript) and isinstance(t.value, ast.Name) and t.value.id in alias:
+                            caches.setdefault(alias[t.value.id], set()).add(where)
     if len(caches) < 3:
         raise AnalysisError(f"atom caches not recognised (found {sorted(caches)}; expected the element, isotope and ion tables)")
     MUT = {"clear", "pop", "popitem", "update", "setdefault", "__delitem__", "__setitem__"}
